@@ -1,5 +1,54 @@
-(* C17 — placeholder, extended below once the iterator proofs are in place. *)
-From Astro Require Import Base CronModel.
-Theorem C17_placeholder : cron_loop O (mkSched [] [] [] [] []) false false (ApiModel.mkDT 0 0 0) = Ok None.
-Proof. exact eq_refl. Qed.
-Print Assumptions C17_placeholder.
+(* C17 — the cron iterator yields every matching minute after now, in order, only those.
+   Model: CronModel.cron_next fuel s last now — CronSchedule::next written with the DateTime operations
+   of ApiModel (add_months(1).clear_until_day(), add_days(1).clear_until_hour(), ...), `now` being the clock
+   value read by next() and `last` the field last_schedule.  Whole minutes are mkmin d mi (day number d,
+   minute of the day mi), ordered by idx d mi = d*1440 + mi.  sched_matches s d mi says that month, hour and
+   minute belong to the parsed sets and the day passes the dom/dow rule (OR when both sets are restricted, the
+   restricted one otherwise, "restricted" = fewer than 31 / 7 values); C16 says what the parsed sets contain.
+
+   PROVED (partial correctness, for every schedule, clock, state, history and every amount of fuel):
+   whenever a call returns a time, that time is a whole minute, matches the schedule, is strictly later than
+   both the clock's minute and the previously returned time, and no matching minute lies in between
+   (nothing skipped, nothing repeated); results of consecutive calls strictly increase.
+   NOT PROVED here (checked by the differential run only): that a call on a satisfiable schedule does return
+   (termination within the fuel and absence of a panic before the range end).  Named *_partial for that reason. *)
+From Astro Require Import Base Text CalSpec DateModel TimeModel ApiModel InstantSpec ClockProofs CronModel CronIterProofs.
+
+Theorem C17_next_partial : forall fuel s last now r,
+  in_i32 (dt_days now) -> 0 <= dt_nanos now < D -> dt_off now = 0 -> last_ok last ->
+  cron_next fuel s last now = Ok (Some r) ->
+  exists d' mi', r = mkmin d' mi' /\ in_i32 d' /\ 0 <= mi' < 1440 /\ base_idx last now < idx d' mi' /\
+                 sched_matches s d' mi' = true /\
+                 forall e me, 0 <= me < 1440 -> base_idx last now < idx e me < idx d' mi' -> sched_matches s e me = false.
+Proof. exact next_spec. Qed.
+(* every history of calls with arbitrary clock readings in between (induction over the list of readings) *)
+Theorem C17_history_partial : forall fuel s clocks st rs, Forall clock_ok clocks -> last_ok st ->
+  run_hist fuel s st clocks = Some rs -> hist_ok s st clocks rs.
+Proof. exact history_spec. Qed.
+Theorem C17_results_increase : forall s prev now r, last_ok (Some prev) -> least_after s (Some prev) now r ->
+  idx (dt_days prev) (dt_nanos prev / NPM) < idx (dt_days r) (dt_nanos r / NPM).
+Proof. exact results_increase. Qed.
+Theorem C17_whole_minute : forall s st now r, least_after s st now r -> dt_nanos r mod NPM = 0 /\ dt_off r = 0.
+Proof. exact result_whole_minute. Qed.
+(* one pass of the loop body either stops on a match or jumps forward over non-matching minutes only *)
+Theorem C17_body : forall s domr dowr d mi, in_i32 d -> 0 <= mi < 1440 ->
+  match cron_body s domr dowr (mkmin d mi) with
+  | Ok (inl r) => r = mkmin d mi /\ m_matches s domr dowr d mi = true
+  | Ok (inr r) => exists d' mi', r = mkmin d' mi' /\ in_i32 d' /\ 0 <= mi' < 1440 /\ idx d mi < idx d' mi' /\
+                                 no_match_between s domr dowr (idx d mi) (idx d' mi')
+  | _ => True
+  end.
+Proof. exact body_spec. Qed.
+
+(* non-vacuity: "0 0 29 2 *" from 2023-03-01T00:00:30Z returns 2024-02-29T00:00 *)
+Example C17_example :
+  let s := mkSched [0] [0] [29] [2] (range_incl 0 6) in
+  cron_next (Z.to_nat 200) s None (mkDT 738579 30000000000 0) = Ok (Some (mkmin 738944 0)) /\
+  days_to_date 738944 = (2024, 2, 29).
+Proof. split; vm_compute; reflexivity. Qed.
+
+Print Assumptions C17_next_partial.
+Print Assumptions C17_history_partial.
+Print Assumptions C17_results_increase.
+Print Assumptions C17_whole_minute.
+Print Assumptions C17_body.
